@@ -42,8 +42,8 @@ V = r"\{(\w+)\}"
 # (op code, regex with one group per variable slot).  Whitespace and continuation TABs are removed
 # before matching.  Order matters only where a later pattern is more general.
 PATTERNS = [
-    (1, r"\{c_const\}std::string" + V + r"\(" + V + r"\);"),
-    (2, r"\{c_const\}std::string" + V + r";"),
+    (1, r"(?:\{c_const\})?std::string" + V + r"\(" + V + r"\);"),
+    (2, r"(?:\{c_const\})?std::string" + V + r";"),
     (3, r"strcpy\(" + V + "," + V + r"\{cxx_member\}c_str\(\)\);"),
     (4, r"\{c_const\}\{cxx_type\}\*" + V + r"=\{cast_static\}\{c_const\}\{cxx_type\}\*\{cast1\}" + V + r"\{c_member\}addr\{cast2\};"),
     (10, V + r"->addr=static_cast<\{c_const\}void\*>\(" + V + r"\);"),
